@@ -39,6 +39,7 @@ class Evaluator:
         self.inline = inline      # predicate on target Fn: inline it?
         self.depth = depth
         self.trace = []
+        self.proj_hook = None     # proj_hook(value, ".field") -> value or None: named-field projection of a symbolic struct
 
     def place_value(self, env, pl):
         v = env.get(pl[0], ("opaque", "local%d" % pl[0]))
@@ -52,6 +53,11 @@ class Evaluator:
                 i = int(e[1:])
                 if i < len(items):
                     v = items[i]
+                    continue
+            if self.proj_hook is not None:
+                r = self.proj_hook(v, e)
+                if r is not None:
+                    v = r
                     continue
             v = ("proj", v, e)
         return v
@@ -90,6 +96,18 @@ class Evaluator:
         self.trace.append("%s %s %s" % (ca, op, cb))
         return ("int", int(_cmp(op, rel)))
 
+    def _variant_discr(self, v):
+        """discriminant of a known fieldless-or-not enum variant of a workspace ADT"""
+        if self.prog is None:
+            return None
+        c = [a for p, a in self.prog.adts.items() if last_seg(p) == v[1] and a.get("kind") == "enum"]
+        if len(c) != 1:
+            return None
+        for vr in c[0]["variants"]:
+            if vr["name"] == v[2]:
+                return vr.get("discr")
+        return None
+
     def _inline_target(self, cal):
         if self.prog is None or self.inline is None:
             return None
@@ -104,6 +122,7 @@ class Evaluator:
         cl = self.prog.fns[clos[1]]
         sub = Evaluator(cl, self.classify, self.relation, self.opaque_switch, self.max_steps, self.call_hook, self.prog, self.inline, self.depth + 1)
         sub.trace = self.trace
+        sub.proj_hook = self.proj_hook
         env = {1: ("tuple", clos[2])}
         for i, a in enumerate(args):
             env[2 + i] = a
@@ -162,6 +181,8 @@ class Evaluator:
                         env[d[0]] = ("int", {-1: 255, 0: 0, 1: 1}[v[1]])
                     elif v[0] == "variant" and v[1] in ("Result", "Option", "ControlFlow"):
                         env[d[0]] = ("int", {"Ok": 0, "Err": 1, "None": 0, "Some": 1, "Continue": 0, "Break": 1}[v[2]])
+                    elif v[0] == "variant" and self._variant_discr(v) is not None:
+                        env[d[0]] = ("int", self._variant_discr(v))
                     else:
                         env[d[0]] = ("discr", v)
                 elif k == "agg":
@@ -251,6 +272,7 @@ class Evaluator:
                     tgt = self._inline_target(cal)
                     sub = Evaluator(tgt, self.classify, self.relation, self.opaque_switch, self.max_steps, self.call_hook, self.prog, self.inline, self.depth + 1)
                     sub.trace = self.trace
+                    sub.proj_hook = self.proj_hook
                     res = sub.run({i + 1: a for i, a in enumerate(args)})
                     if res is None:
                         res = ("opaque", "call:%s" % name)
